@@ -89,6 +89,20 @@ impl FromSpecImpl<MessageClass> for u8 {
     open spec fn obeys_from_spec() -> bool { true }
     open spec fn from_spec(c: MessageClass) -> Self { u8_of_class(c) }
 }
+// #[derive(PartialEq)] is structural equality (rustc's derive; the derived bodies are checked
+// against these specs by Verus)
+impl vstd::std_specs::cmp::PartialEqSpecImpl for RequestType {
+    open spec fn obeys_eq_spec() -> bool { true }
+    open spec fn eq_spec(&self, other: &RequestType) -> bool { *self == *other }
+}
+impl vstd::std_specs::cmp::PartialEqSpecImpl for ResponseType {
+    open spec fn obeys_eq_spec() -> bool { true }
+    open spec fn eq_spec(&self, other: &ResponseType) -> bool { *self == *other }
+}
+impl vstd::std_specs::cmp::PartialEqSpecImpl for MessageClass {
+    open spec fn obeys_eq_spec() -> bool { true }
+    open spec fn eq_spec(&self, other: &MessageClass) -> bool { *self == *other }
+}
 ''' % (chain, back)
 
 
